@@ -187,11 +187,11 @@ Qed.
 (* ---------- emitters only extend the table, with offsets inside what they emit ---------- *)
 Definition ext_em (E : emitter) : Prop :=
   forall pos t em t', E pos t = Ok (em, t') ->
-    exists new, t' = t ++ new /\ Forall (fun kv => pos <= snd kv < pos + zlen em) new.
+    exists new, t' = t ++ new /\ Forall (fun kv => pos <= snd kv < pos + zlen em /\ 1 < zlen (fst kv)) new.
 
 Lemma tw_em_new2 : forall labels pos t,
   exists new, snd (tw_em labels pos t) = t ++ new /\
-              Forall (fun kv => pos <= snd kv < pos + zlen (fst (tw_em labels pos t))) new.
+              Forall (fun kv => pos <= snd kv < pos + zlen (fst (tw_em labels pos t)) /\ 1 < zlen (fst kv)) new.
 Proof.
   induction labels as [|l r IH]; intros pos t.
   - exists []. cbn. rewrite app_nil_r. auto.
@@ -200,12 +200,13 @@ Proof.
     + cbn [snd fst].
       assert (Hlen : forall x, zlen (zlen l :: l ++ x) = 1 + zlen l + zlen x).
       { intros x. unfold zlen. cbn [length]. rewrite app_length. lia. }
-      match goal with |- context [if ?c then _ else _] => destruct c end.
+      match goal with |- context [if ?c then _ else _] => destruct c eqn:Ec end.
       * destruct (IH (pos + 1 + zlen l) (t ++ [(l :: r, pos)])) as (new & E & F).
         exists ((l :: r, pos) :: new). split; [rewrite <- app_assoc in E; exact E|].
         rewrite Hlen. pose proof (zlen_nn l).
         pose proof (zlen_nn (fst (tw_em r (pos + 1 + zlen l) (t ++ [(l :: r, pos)])))).
-        unfold name, label in *. constructor; [cbn [snd]; lia|]. eapply Forall_impl; [|exact F].
+        apply andb_true_iff in Ec. destruct Ec as [Ec _]. apply Z.ltb_lt in Ec.
+        unfold name, label in *. constructor; [cbn [snd fst]; lia|]. eapply Forall_impl; [|exact F].
         intros kv H'. cbn beta in H'. lia.
       * destruct (IH (pos + 1 + zlen l) t) as (new & E & F).
         exists new. split; [exact E|]. rewrite Hlen. pose proof (zlen_nn l).
@@ -222,13 +223,14 @@ Proof.
 Qed.
 
 Lemma Forall_widen (new : list (name * Z)) a b a' b' :
-  a' <= a -> b <= b' -> Forall (fun kv => a <= snd kv < b) new -> Forall (fun kv => a' <= snd kv < b') new.
+  a' <= a -> b <= b' -> Forall (fun kv => a <= snd kv < b /\ 1 < zlen (fst kv)) new ->
+  Forall (fun kv => a' <= snd kv < b' /\ 1 < zlen (fst kv)) new.
 Proof. intros. eapply Forall_impl; [|eassumption]. cbn. intros; lia. Qed.
 
 (* sequencing two extending emitters *)
 Lemma ext_seq (E1 E2 : emitter) pos t e1 t1 e2 t2 :
   ext_em E1 -> ext_em E2 -> E1 pos t = Ok (e1, t1) -> E2 (pos + zlen e1) t1 = Ok (e2, t2) ->
-  exists new, t2 = t ++ new /\ Forall (fun kv => pos <= snd kv < pos + zlen e1 + zlen e2) new.
+  exists new, t2 = t ++ new /\ Forall (fun kv => pos <= snd kv < pos + zlen e1 + zlen e2 /\ 1 < zlen (fst kv)) new.
 Proof.
   intros X1 X2 H1 H2. destruct (X1 _ _ _ _ H1) as (n1 & -> & F1). destruct (X2 _ _ _ _ H2) as (n2 & -> & F2).
   exists (n1 ++ n2). rewrite app_assoc. split; [reflexivity|]. apply Forall_app. split.
@@ -344,6 +346,9 @@ Qed.
 Lemma firstn_app_exact {A} (a b : list A) : firstn (length a) (a ++ b) = a.
 Proof. rewrite firstn_app, firstn_all, Nat.sub_diag. cbn. apply app_nil_r. Qed.
 
+Lemma firstn_zlen_app {A} (a b : list A) : firstn (Z.to_nat (zlen a)) (a ++ b) = a.
+Proof. unfold zlen. rewrite Nat2Z.id. apply firstn_app_exact. Qed.
+
 Lemma filter_below (t new : ctable) pos :
   Forall (fun kv => snd kv < pos) t -> Forall (fun kv => pos <= snd kv) new ->
   filter (fun kv => snd kv <? pos) (t ++ new) = t.
@@ -363,7 +368,7 @@ Lemma tracked_spec E sec n r b r' :
   rsec r <= sec /\
   exists em new,
     E (zlen (out r)) (tbl r) = Ok (em, tbl r ++ new) /\
-    Forall (fun kv => zlen (out r) <= snd kv < zlen (out r) + zlen em) new /\
+    Forall (fun kv => zlen (out r) <= snd kv < zlen (out r) + zlen em /\ 1 < zlen (fst kv)) new /\
     ((b = false /\ zlen (out r) + zlen em <= maxsz r /\
       r' = inc_count (set_out (set_rsec r sec) (out r ++ em) (tbl r ++ new)) sec n)
      \/ (b = true /\ zlen (out r) + zlen em > maxsz r /\ r' = set_rsec r sec)).
@@ -377,8 +382,8 @@ Proof.
   destruct (Z.gtb_spec (zlen (out r) + zlen em) (maxsz r)).
   - right. inversion H; subst. split; [reflexivity|]. split; [lia|].
     unfold rollback, set_out, set_rsec. cbn [out tbl cq can cau cad rsec rflags maxsz reserved padded].
-    unfold zlen at 1. rewrite Nat2Z.id, firstn_app_exact.
+    rewrite firstn_zlen_app.
     rewrite filter_below; [reflexivity|exact TB|].
-    eapply Forall_impl; [|exact F]. cbn. intros; lia.
+    eapply Forall_impl; [|exact F]. cbn beta. intros kv (Hk & _). unfold name, label in *. lia.
   - left. inversion H; subst. split; [reflexivity|]. split; [lia|reflexivity].
 Qed.
